@@ -8,6 +8,7 @@
 #include <stdlib.h>
 #include <stdarg.h>
 #include <algorithm>
+#include <string.h>
 #include <string>
 #include <vector>
 
@@ -540,6 +541,25 @@ std::string build_crash_case(const std::string &kind_in) {
     std::string text;
     for (auto &l : lines) { text += l; text += "\n"; }
     return text;
+  }
+  if (kind == "C12" && chance(25)) {
+    // "busy compaction" skeleton: three level-0 tables, then a burst that triggers the level-0 compaction and keeps
+    // overflowing the write buffer while it runs, so that memtable flushes (and their MANIFEST appends) happen inside a
+    // running compaction.  Needs a schedule that interleaves the background thread with the writer.
+    for (const char *other : {" sched=eager", " sched=starved"}) {
+      size_t sp = lines[0].find(other);
+      if (sp != std::string::npos) lines[0].replace(sp, strlen(other), " sched=random");
+    }
+    // few large values: the writer needs only a handful of scheduling points to fill the buffer, the compaction has many
+    int nb = pick<int>({{1, 2500}, {2, 8000}, {3, 16000}});
+    for (int r = 0; r < 3; r++) {
+      int lo = uni(0, 30);
+      lines.push_back(fmt("fill %d %d %d %d syncevery=%d", lo, lo + uni(2, 60000 / nb), nb, uni(1, 50), pick<int>({{3, 0}, {1, 4}})));
+      lines.push_back("flush");
+    }
+    int lo = uni(0, 20);
+    lines.push_back(fmt("fill %d %d %d %d syncevery=%d", lo, lo + uni(150000, 420000) / nb, nb, uni(1, 50), pick<int>({{3, 0}, {1, 5}})));
+    if (nops > 12) nops = 12;
   }
   for (int i = 0; i < nops; i++) {
     int c = uni(0, 99);
